@@ -430,6 +430,66 @@ func suiteOpenDamage(seed uint64, tier string) *Report {
 		shapes[c.class+"/"+outcome] = true
 		rep.Dist["outcome:"+outcome]++
 	}
+	// ---- C03: a crash during the very first initialisation of a directory leaves wal-meta.db.tmp behind (complete,
+	// torn, zero-filled or empty) and no wal-meta.db: Open must initialise the directory and leave a usable log
+	{
+		fresh, _ := os.MkdirTemp(base, "verif-od-fresh-")
+		var freshDB []byte
+		if w0, res := odOpen(fresh, 20*time.Second); w0 != nil {
+			w0.Close()
+			freshDB, _ = os.ReadFile(filepath.Join(fresh, "wal-meta.db"))
+		} else {
+			rep.Notes = append(rep.Notes, "fresh init: "+res)
+		}
+		os.RemoveAll(fresh)
+		leftovers := []struct {
+			name string
+			b    []byte
+		}{
+			{"a complete initialised meta DB (process died between bolt's commit and the rename)", freshDB},
+			{"zero-filled to full size (power loss: size durable, content not)", make([]byte, len(freshDB))},
+			{"only the first page written", append(append([]byte(nil), freshDB[:min(4096, len(freshDB))]...), make([]byte, max(0, len(freshDB)-4096))...)},
+			{"empty file", nil},
+			{"garbage", r.Bytes(300)},
+		}
+		for _, lo := range leftovers {
+			if freshDB == nil {
+				break
+			}
+			dir, _ := os.MkdirTemp(base, "verif-od-init-")
+			os.WriteFile(filepath.Join(dir, "wal-meta.db.tmp"), lo.b, 0o644)
+			rep.Cases++
+			rep.Dist["class:leftover-meta-tmp"]++
+			steps := []string{"empty directory except for wal-meta.db.tmp: " + lo.name, "Open"}
+			addC03 := func(what, detail string, st ...string) {
+				rep.Violations = append(rep.Violations, Violation{Property: "C03", What: what, Detail: detail, Ops: st})
+			}
+			for attempt := 1; attempt <= 2; attempt++ {
+				w, res := odOpen(dir, 20*time.Second)
+				if w == nil {
+					addC03("Open fails on a directory that a crash during the first initialisation can leave behind", fmt.Sprintf("attempt %d: %s", attempt, clipS(res)), steps...)
+					if res == "blocked" {
+						break
+					}
+					continue
+				}
+				l := &raft.Log{Index: uint64(attempt), Term: 1, Data: []byte("after-init-crash")}
+				var back raft.Log
+				if err := w.StoreLogs([]*raft.Log{l}); err != nil {
+					addC03("the log recovered after an interrupted first initialisation refuses an append", err.Error(), append(steps, "StoreLogs")...)
+				} else if err := w.GetLog(uint64(attempt), &back); err != nil || string(back.Data) != "after-init-crash" {
+					addC03("entry appended after an interrupted first initialisation cannot be read back", fmt.Sprint(err), append(steps, "StoreLogs", "GetLog")...)
+				}
+				if err := w.SetUint64([]byte("k"), 7); err != nil {
+					addC03("the log recovered after an interrupted first initialisation refuses a stable write", err.Error(), append(steps, "SetUint64")...)
+				}
+				w.Close()
+				steps = append(steps, "append, stable write, Close", "Open again")
+			}
+			shapes["leftover-meta-tmp/"+lo.name] = true
+			os.RemoveAll(dir)
+		}
+	}
 	rep.NonTrivial = len(shapes)
 	if len(rep.Samples) < 3 {
 		rep.Samples = append(rep.Samples, map[string]any{"classes": len(cases), "sealed": t.sealed, "tail": t.tail})
